@@ -34,6 +34,12 @@ def check(ctx):
     loop_guards(ctx, P, iters)
     counter_table(ctx, P)
     completed_flags(ctx, P)
+    foreign_server_lists(ctx, P)
+    # exact arithmetic: a raw operator that meets a Decimal and a float raises TypeError in the middle of a run (shared instances, C20)
+    from . import c20
+    for cname in ("ExactNode", "ExactArrivalNode"):
+        if cname in P.classes:
+            c20.closure(ctx, P, cname)
     # guards whose failure mode is an exception (shared rule instances)
     views = family_views(P, "Node")
     c07.disarm(ctx, P, views, iters)
@@ -297,6 +303,47 @@ def _assigned_by_user_protocol(P, view, attr, m):
         return True
     # distributions / routers receive `simulation` (and `node`) from Simulation / NetworkRouting before use
     return False
+
+
+# reads of another node's server list from outside the node classes that need no guard, with the reason
+FOREIGN_SERVERS_OK = {
+    ("StateDigraph.action_at_blockage", 1): "the receiver is the destination of a blockage: a node that can be full has a finite capacity, hence a finite number of servers",
+}
+
+
+def foreign_server_lists(ctx, P):
+    """`servers` exists only on nodes with a finite number of servers (Node.__init__ creates it under `not isinf(self.c)`).  The node's own methods are
+    checked configuration by configuration (R9.init); code outside the node classes -- detector, trackers, routers, the simulation -- that reads
+    `<node>.servers` must do so under a finite-`c` test of that same node, or be a listed site whose receiver is known to be finite."""
+    ob = ctx.ob("FSRV", "outside the node classes `<node>.servers` is read only under `<node>.c` finite (infinite-server nodes have no server list)")
+    node_classes = set(P.subclasses("Node"))
+    n = 0
+    for ci, fn in P.all_functions():
+        if ci is not None and (ci.name in node_classes or ci.name in P.subclasses("Server")):
+            continue
+        q = P.func_name(fn)
+        params = [a.arg for a in fn.args.args]
+        for x in ast.walk(fn):
+            if not (isinstance(x, ast.Attribute) and x.attr == "servers" and isinstance(x.ctx, ast.Load)) or unparse(x.value) == "self":
+                continue
+            n += 1
+            recv = unparse(x.value)
+            ob.ok("%s:%s.servers" % (q, recv))
+            guarded = False
+            child, p = x, getattr(x, "_parent", None)
+            while p is not None and p is not fn:
+                if isinstance(p, ast.If) and any(child is y for y in p.body + p.orelse):
+                    facts = {}
+                    guards.assume(guards.norm(p.test, unparse), any(child is y for y in p.body), facts)
+                    if facts.get(("isinf", recv + ".c")) is False:
+                        guarded = True
+                child, p = p, getattr(p, "_parent", None)
+            listed = isinstance(x.value, ast.Name) and x.value.id in params and (q, params.index(x.value.id) - 1) in FOREIGN_SERVERS_OK
+            if not guarded and not listed:
+                ctx.violation(ob, "R9.init", q, "%s.servers" % recv, "server-list-of-a-node-that-may-have-none",
+                              "%s reads `%s.servers` without testing that this node has a finite number of servers: infinite-server nodes never create the list "
+                              "(AttributeError), processor-sharing and slotted nodes keep no customer on it" % (q, recv), loc(x))
+    ctx.floor("foreign reads of a node's server list", n, 2)
 
 
 def loop_locals(ctx, P, iters):
